@@ -29,10 +29,11 @@ Inductive error : Type :=
 | ETableNotFound        (* read_data: table named in the data section does not exist *)
 | EInsert (what : Z)    (* Table::insert rejected the row: 0 column count, 1 NULL, 2 type mismatch *)
 | ETemporal             (* Date/Time/Timestamp FromStr returned Err *)
-| ENotImpl.             (* "... deserialization not yet implemented" *)
+| ENotImpl              (* "... deserialization not yet implemented" *)
+| EDepth.               (* "Expression nesting deeper than MAX_EXPRESSION_DEPTH" *)
 
 Inductive panic : Type :=
-| PSlice                (* &s[..n] off a char boundary (RowNormalizer VARCHAR/CHAR/NAME truncation) *)
+| PSlice                (* &s[..n] off a char boundary: no longer produced (VARCHAR/NAME are cut on a boundary, CHAR by characters) *)
 | PFmtWidth             (* format!("{:width$}") with width > u16::MAX: "Formatting argument out of range" *)
 | PTemporal (k : Z).    (* a temporal FromStr / Interval::new panicked: 0 date 1 time 2 timestamp 3 interval *)
 
